@@ -18,7 +18,7 @@ pub fn c08(ctx: &Ctx, subj: &dyn DynSubject, ty: &Ty, rep: &mut Report) {
         let mut ent = Ent::new(ent);
         self_check(subj, v)?;
         let (bytes, _) = ser_bytes(subj, v)?;
-        let enc = model_enc(ctx, subj, ty, v)?;
+        let enc = model_enc_fit(ctx, subj, ty, v, bytes.len(), log)?;
         let path = ctx.tmp.join(format!("c08-{}-{:?}.bin", subj.index(), std::thread::current().id()).replace(['(', ')'], ""));
         // store writes exactly the serialized bytes
         match guard(|| subj.store(v, &path)) {
